@@ -97,3 +97,124 @@ Fixpoint pool_run (schedule : Z -> Z -> Q) (pool : list wstate) (owners : list n
    copy of the same transform with sample_counter = 0 *)
 Definition init_pool (W : nat) (B : Z) (i : init_t) (inner : tree) : list wstate :=
   map (fun r => worker_init (Z.of_nat r) (Z.of_nat W) B i inner) (seq 0 W).
+
+(* ======================================================================================================
+   SHARED inner transforms, interleaved histories.
+
+   `self.transform` of a KDScheduledTransform is an object reference: several scheduled transforms may wrap the
+   SAME augmentation object (two views with different schedules over one augmentation), the same object may also be
+   a direct member of an outer KDComposeTransform, and anybody holding a reference may call scale_strength on it
+   between two samples.  The state of one copy of the pipeline (= what one DataLoader worker owns after the fork /
+   deepcopy, which preserves the sharing inside the copy) is therefore a HEAP of augmentation objects plus the
+   scheduled transforms' own fields; a scheduled transform refers to heap cells by index.
+
+       __call__:  batch_idx = self.sample_counter // self.batch_size * self.num_workers + self.rank
+                  strength  = self.schedule.get_value(batch_idx, self.n_batches)
+                  self.sample_counter += 1
+                  self.transform.scale_strength(strength)        <- unconditional WRITE to the shared object(s)
+                  ctx[self.ctx_key] = strength
+                  return self.transform(x, ctx=ctx)              <- READS the shared object(s)
+
+   ss_targets: the heap cells self.transform.scale_strength reaches: [j] when self.transform is heap object j,
+   [j1; j2; ...] when self.transform is a (private) KDComposeTransform over heap objects j1, j2, ... .
+   ====================================================================================================== *)
+Record sstate : Type := mk_sstate {
+  ss_rank : Z;
+  ss_workers : Z;
+  ss_bs : Z;
+  ss_nb : Z;
+  ss_counter : Z;
+  ss_targets : list nat
+}.
+
+Record pstate : Type := mk_pstate {
+  ps_scheds : list sstate;      (* the KDScheduledTransform objects of this pipeline copy *)
+  ps_inners : list tree         (* the heap of augmentation objects of this pipeline copy *)
+}.
+
+(* configuration of one scheduled transform: batch size, how n_batches is announced, cells its transform reaches *)
+Definition scfg : Type := (Z * init_t * list nat)%type.
+
+Definition ss_batch_idx (s : sstate) : Z := ss_counter s / ss_bs s * ss_workers s + ss_rank s.
+
+(* obj.scale_strength(f) on heap cell j (a reference that does not exist changes nothing) *)
+Definition scale_cell (h : list tree) (j : nat) (f : Q) : list tree :=
+  match nth_error h j with
+  | Some t => set_nth j (tree_scale t f) h
+  | None => h
+  end.
+(* the same factor pushed to several cells, in member order (KDComposeTransform._scale_strength) *)
+Definition scale_cells (h : list tree) (js : list nat) (f : Q) : list tree :=
+  fold_left (fun h j => scale_cell h j f) js h.
+
+(* members of an OUTER KDComposeTransform that somebody scales: a scheduled transform (KDScheduledTransform
+   defines no _scale_strength: the base-class no-op, the outer factor never reaches what it wraps - its own schedule
+   governs) or a heap object that is a direct member *)
+Inductive member : Type := MSched (k : nat) | MInner (j : nat).
+Definition outer_targets (outer : list member) : list nat :=
+  flat_map (fun m => match m with MInner j => [j] | MSched _ => [] end) outer.
+
+(* one __call__ of scheduled transform k of this pipeline copy: new state and the value written to ctx *)
+Definition shared_call (schedule : Z -> Z -> Q) (p : pstate) (k : nat) : option (pstate * Q) :=
+  match nth_error (ps_scheds p) k with
+  | None => None
+  | Some s =>
+      let strength := schedule (ss_batch_idx s) (ss_nb s) in
+      let s' := mk_sstate (ss_rank s) (ss_workers s) (ss_bs s) (ss_nb s) (ss_counter s + 1) (ss_targets s) in
+      Some (mk_pstate (set_nth k s' (ps_scheds p)) (scale_cells (ps_inners p) (ss_targets s) strength), strength)
+  end.
+
+(* what happens, in time order, to the W pipeline copies: copy w's scheduled transform k processes a sample;
+   somebody calls scale_strength(f) on heap object j of copy w; somebody calls scale_strength(f) on copy w's outer
+   composition *)
+Inductive pstep : Type :=
+  | PCall (w k : nat)
+  | PScale (w j : nat) (f : Q)
+  | PScaleOuter (w : nat) (f : Q).
+
+(* observation after a step: the value reported in ctx (for the scale steps: the factor given) and the copy's
+   whole heap, i.e. the parameters the next apply reads *)
+Definition istep (schedules : nat -> Z -> Z -> Q) (outer : list member) (pool : list pstate) (st : pstep)
+  : option (list pstate * (Q * list tree)) :=
+  match st with
+  | PCall w k =>
+      match nth_error pool w with
+      | None => None
+      | Some p =>
+          match shared_call (schedules k) p k with
+          | None => None
+          | Some (p', v) => Some (set_nth w p' pool, (v, ps_inners p'))
+          end
+      end
+  | PScale w j f =>
+      match nth_error pool w with
+      | None => None
+      | Some p =>
+          let h := scale_cell (ps_inners p) j f in
+          Some (set_nth w (mk_pstate (ps_scheds p) h) pool, (f, h))
+      end
+  | PScaleOuter w f =>
+      match nth_error pool w with
+      | None => None
+      | Some p =>
+          let h := scale_cells (ps_inners p) (outer_targets outer) f in
+          Some (set_nth w (mk_pstate (ps_scheds p) h) pool, (f, h))
+      end
+  end.
+
+Fixpoint ipool_run (schedules : nat -> Z -> Z -> Q) (outer : list member) (pool : list pstate) (steps : list pstep)
+  : list (Q * list tree) :=
+  match steps with
+  | [] => []
+  | st :: r =>
+      match istep schedules outer pool st with
+      | Some (pool', ob) => ob :: ipool_run schedules outer pool' r
+      | None => []
+      end
+  end.
+
+(* worker_init_fn on every scheduled transform of copy `rank` of W *)
+Definition sched_init (rank num_workers : Z) (c : scfg) : sstate :=
+  let '(B, i, js) := c in mk_sstate rank num_workers B (n_batches_of i B) 0 js.
+Definition iinit_pool (W : nat) (cfgs : list scfg) (inners : list tree) : list pstate :=
+  map (fun r => mk_pstate (map (sched_init (Z.of_nat r) (Z.of_nat W)) cfgs) inners) (seq 0 W).
